@@ -2,8 +2,11 @@
 import json, os, random, re, socket
 import vlib
 
-KINDS = ["load-result", "serving-mismatch", "listening-mismatch", "leftover-runner", "harness-problem"]
-OVERLAY = {"zz_verif_reload_test.go": os.path.join(vlib.ROOT, "harness", "overlay", "main", "reload_test.go")}
+KINDS = ["load-result", "serving-mismatch", "listening-mismatch", "leftover-runner", "harness-problem",
+         "refused-on-retained", "common-key-rejected", "wrong-attribution", "handled-not-once", "datagram-lost",
+         "connection-unhandled", "relay-interrupted"]
+OVERLAY = {"zz_verif_reload_test.go": os.path.join(vlib.ROOT, "harness", "overlay", "main", "reload_test.go"),
+           "zz_verif_handover_test.go": os.path.join(vlib.ROOT, "harness", "overlay", "main", "handover_test.go")}
 
 
 def free_ports(n, seed):
@@ -91,9 +94,6 @@ def judge(ctx, tf, desc, pid, kind_text, scenarios=None):
     res = parse_result(r)
     if res is None or res["lines"] != len(rows) or not ok:
         raise vlib.Inconclusive("ReloadTrace did not consume the whole trace (%s): %s" % (desc, "\n".join(r.out.splitlines()[-15:])))
-    if res["vio"]["harness-problem"]:
-        sl = scenario_slice(rows, res["vio"]["harness-problem"])
-        raise vlib.Inconclusive("the reload harness could not measure (%s): %s" % (desc, json.dumps(sl[-1])[:1500]))
     ctx.cov["traces_validated_against_impl"] += res["nscen"]
     ctx.cov.setdefault("probes", 0)
     ctx.cov["probes"] += res["nprobe"]
@@ -105,6 +105,9 @@ def judge(ctx, tf, desc, pid, kind_text, scenarios=None):
                           "%s: %s (%s, trace line %d): observed %s" % (pid, kind_text.get(k, k), desc, line,
                                                                       json.dumps({a: b for a, b in sl[-1].items() if a not in ("cfg",)})[:600]),
                           {"driver": desc, "events": sl})
+    if res["vio"]["harness-problem"] and not ctx.violations:
+        sl = scenario_slice(rows, res["vio"]["harness-problem"])
+        raise vlib.Inconclusive("the reload harness could not measure (%s): %s" % (desc, json.dumps(sl[-1])[:1500]))
     return res
 
 
